@@ -774,9 +774,57 @@ pub fn generate(rng: &mut Rng, opts: &GenOpts) -> OsuFile {
     f
 }
 
+/// A map that `Beatmap::check_suspicion` rejects (too dense, or first and last object more than a day apart) but that is
+/// cheap to calculate: such maps are still maps, the relational properties hold for them too.
+pub fn suspicious_cheap_file(rng: &mut Rng, mode: u8) -> OsuFile {
+    let mut f = OsuFile {
+        version: Some(14),
+        mode,
+        hp: Some("5".into()),
+        cs: Some(if mode == 3 { "4".into() } else { "4.2".into() }),
+        od: Some("7".into()),
+        ar: Some("8".into()),
+        sm: Some("1.4".into()),
+        tr: Some("1".into()),
+        ..OsuFile::default()
+    };
+    f.timing.push(TimingLine {
+        time: "0".into(),
+        beat_len: "400".into(),
+        meter: "4".into(),
+        uninherited: Some(true),
+        effects: Some(0),
+    });
+    let dense = rng.chance(0.5);
+    let n = if dense { rng.range(110, 300) as usize } else { rng.range(20, 60) as usize };
+    let mut t = 1000.0;
+    for i in 0..n {
+        let x = if mode == 3 { [64, 192, 320, 448][i % 4] } else { rng.range(0, 512) };
+        f.objects.push(ObjLine {
+            x: x.to_string(),
+            y: rng.range(0, 384).to_string(),
+            time: fnum(t),
+            extra_type: 0,
+            sound: *rng.pick(&[0u32, 2, 8]),
+            kind: ObjKind::Circle,
+            sample: None,
+        });
+        t += if dense { rng.range(2, 8) as f64 } else { *rng.pick(&[100.0, 200.0, 400.0]) };
+        if !dense && i == n - 2 {
+            t += 3_600_000.0 * rng.range(25, 30) as f64;
+        }
+    }
+    f
+}
+
 /// A long but plain map (1 500 - 6 000 objects, integer times, mostly circles with a few short sliders, spinners or
 /// holds): the performance calculators have branches that only open beyond ~1 500 / 2 000 / 2 500 hits (length bonuses).
 pub fn long_file(rng: &mut Rng, mode: u8) -> OsuFile {
+    let n = *rng.pick(&[1500usize, 2001, 2501, 2600, 3000, 4000, 6000]) + rng.usize_below(40);
+    long_file_n(rng, mode, n)
+}
+
+pub fn long_file_n(rng: &mut Rng, mode: u8, n: usize) -> OsuFile {
     let mut f = OsuFile {
         version: Some(14),
         mode,
@@ -796,7 +844,6 @@ pub fn long_file(rng: &mut Rng, mode: u8) -> OsuFile {
         uninherited: Some(true),
         effects: Some(0),
     });
-    let n = *rng.pick(&[1500usize, 2001, 2501, 2600, 3000, 4000, 6000]) + rng.usize_below(40);
     let keys = f.cs.as_ref().and_then(|c| c.parse::<i64>().ok()).unwrap_or(4).max(1);
     let mut t = 500.0;
     for i in 0..n {
